@@ -549,6 +549,21 @@ class Oracle:
             return out
         if k not in ("EXEC", "PEXEC", "INST", "MIGRATE", "PMIGRATE") and not k.startswith("SEED"):
             return out
+        # ---- C16: what a query of an ask reports (remaining size, the approver's recorded coin) is what its owner's
+        # cancel pays out, in every state -- seeded legacy books included
+        if b.ok and k in ("EXEC", "PEXEC") and ev.sub == "cancel_ask" and not self.self_sent:
+            try:
+                a = self.asks.get(ev.ids()[0][0])
+                if a is not None and SELF not in (a.owner, a.cls[1] if a.cls[0] == "ready" else None):
+                    want = {}
+                    want[(a.owner, a.base)] = a.size
+                    if a.cls[0] == "ready":
+                        want[(a.cls[1], a.cls[2])] = want.get((a.cls[1], a.cls[2]), 0) + a.cls[3]
+                    got = dict((kk, v) for kk, v in dict(flows(b, ev)).items() if kk[0] != SELF)
+                    if got != dict((kk, v) for kk, v in want.items() if v):
+                        out.append(("C16", None, "cancel_ask pays %r, the order a query reports holds %r" % (sorted(got.items()), sorted(want.items()))))
+            except Exception:
+                pass
         # ---- C13: instantiate accepted exactly for coherent messages, stored = request
         if k == "INST" and len(ev.tok) >= 16:
             try:
